@@ -158,6 +158,9 @@ func fieldPath(fieldDescs protoreflect.FieldDescriptors, names ...string) []prot
 			if msgDesc == nil {
 				return nil
 			}
+			if fd.IsList() || fd.IsMap() {
+				return nil // can't address fields inside repeated or map fields
+			}
 			fieldDescs = msgDesc.Fields()
 		}
 	}
